@@ -192,12 +192,16 @@ def model_to_zone(model, N, T):
     g = lambda k, d=0: model.get(k, d)
     return {"N": N, "T": T, "default": g("z_default"), "unix": [g("z_unix%d" % i) for i in range(N)], "type": [g("z_type%d" % i) for i in range(N)],
             "off": [g("z_off%d" % t) for t in range(T)], "dst": [g("z_dst%d" % t) for t in range(T)], "abbr": [g("z_abbr%d" % t) for t in range(T)],
-            "t": g("t"), "cs": g("cs"), "cs1": g("cs1"), "cs2": g("cs2"), "hint1": g("z_local_time_hint"), "hint2": g("z_time_local_hint")}
+            "t": g("t"), "cs": g("cs"), "cs1": g("cs1"), "cs2": g("cs2"), "hint1": g("z_local_time_hint"), "hint2": g("z_time_local_hint"), "last_year": g("z_last_year")}
 
 # ------------------------------------------------------------------------------------------ shared runner
 from . import tz_replay
 
-def run_property(prop, tier, jobs, kinds, text, bounds, outside=(), extra_assumptions=()):
+EXT_OUTSIDE = "zones extended by a POSIX footer (extended_: 400-year shift, YearShift/TimeLocal) - year-based code is outside the ordinal abstraction"
+EXT_COVERED = ("zones extended by a POSIX footer: what is decided is the reduction of every instant / civil second beyond the table to the table's last "
+               "400 years (periodic continuation, exact saturation); that the 401 generated years follow the footer is decided per rule by the TransOffset jobs of C01; "
+               "the year-stepping loop of ExtendTransitions itself (jan1_time / weekday / leap bookkeeping over 401 iterations) is not encoded")
+def run_property(prop, tier, jobs, kinds, text, bounds, outside=(), extra_assumptions=(), ext=False):
     """jobs: list of (name, fn, kwargs); kinds: job-name prefix -> replay kind"""
     rep = common.Report(prop, tier, "proof")
     mod = tz.module(); rep.add_module("wrap/tzinfo.cc", mod); tz.names()
@@ -213,6 +217,7 @@ def run_property(prop, tier, jobs, kinds, text, bounds, outside=(), extra_assump
                 else: rep.spurious.append({"job": r["name"], "obligation": fobj["desc"], "model": fobj["model"]})
                 continue
             z = model_to_zone(fobj["model"], kw["N"], kw["T"])
+            if r["name"].startswith("ext"): z["ext"] = True
             kind = None
             for pfx, k in kinds.items():
                 if r["name"].startswith(pfx): kind = k
@@ -221,29 +226,38 @@ def run_property(prop, tier, jobs, kinds, text, bounds, outside=(), extra_assump
                 cands = [z]
                 # neighbours of the queried point: the model is one point of a failing region
                 for dt in (1, -1):
-                    z2 = dict(z); z2["t"] = z["t"] + dt; z2["cs"] = z["cs"] + dt; cands.append(z2)
+                    z2 = dict(z); z2["t"] = z["t"] + dt; z2["cs"] = z["cs"] + dt
+                    if tz.I64MIN <= z2["t"] <= tz.I64MAX and tz.ORD_LO <= z2["cs"] <= tz.ORD_HI: cands.append(z2)
                 for zz in cands:
                     for kk in ([kind] if kind else []) + ["break", "make", "roundtrip", "order", "next", "prev"]:
                         w = tz_replay.check_case(zz, kk)
                         if w: z = zz; break
                     if w: break
+                if not w:
+                    for zz in cands:
+                        w = tz_replay.check_ub(zz)
+                        if w: z = zz; break
             except Exception as e:
                 w = None; rep.notes.append("replay error: %s" % e)
             if w: rep.violation(json.dumps({k: z[k] for k in sorted(z)}, sort_keys=True)[:600], w + "  [%s: %s]" % (r["name"], fobj["desc"]), {"zone": z, "kind": kind})
             else: rep.spurious.append({"job": r["name"], "obligation": fobj["desc"], "model": fobj["model"]})
     rep.bounds = list(bounds)
-    rep.outside = ["zones extended by a POSIX footer (extended_: 400-year shift, YearShift/TimeLocal) - year-based code is outside the ordinal abstraction",
-                   "tables larger than the stated N x T"] + list(outside)
+    rep.outside = [EXT_COVERED if ext else EXT_OUTSIDE, "tables larger than the stated N x T"] + list(outside)
     rep.assumptions = ["WF(table): what TimeZoneInfo::Load establishes (sorted times, front < 0 <= back, offsets within +-24h, civil_sec/prev_civil_sec/civil_max/civil_min consistent)",
                        "zic-shaped premise: |transition time| <= 2^59; C02's premise: consecutive offset changes are farther apart than the sum of their sizes",
                        "civil_second default construction, +, - replaced by their ordinal contracts (proved on the real code by C04/C05); relational operators run from their IR",
                        "std::string::operator[] on abbreviations_ modelled as data()+i with a bounds obligation"] + list(extra_assumptions)
+    if ext:
+        rep.assumptions += ["ext-* jobs: extended_ = true; WF additionally says last_year_ is the year shown at the last transition and the table reaches back "
+                            "more than 400 years + 2 (what ExtendTransitions appends); civil_second::year() in TimeZoneInfo code is the calendar oracle's year of the "
+                            "ordinal; YearShift by a multiple of 400 years is + that many 146097-day cycles (lemma L1 of C04); any other YearShift is an obligation failure"]
     return rep.finish(text)
 
 def replay_case(case):
     if "transoffset" in case: return tz_replay.check_transoffset(case["transoffset"], case["form"])
     return tz_replay.check_case(case["zone"], case.get("kind") or "break") or \
-           next((w for w in (tz_replay.check_case(case["zone"], k) for k in ("make", "roundtrip", "order", "next", "prev")) if w), None)
+           next((w for w in (tz_replay.check_case(case["zone"], k) for k in ("make", "roundtrip", "order", "next", "prev")) if w), None) or \
+           tz_replay.check_ub(case["zone"])
 
 def sizes(tier, two_calls=False):
     if two_calls:
